@@ -180,10 +180,14 @@ func hC07RestIn() {
 // hC07RestOut: RPC client -> REST backend. Path, query string and body produced by the transcoder
 // re-parse under the same rule to the original message.
 func hC07RestOut() {
-	rule := verifChoose("rule", 3)
+	rule := verifChoose("rule", 4)
 	var rules []*annotations.HttpRule
 	var tpl string
 	switch rule {
+	case 3:
+		// a variable whose pattern has a literal segment: the value has to spell that literal exactly
+		tpl = "/v4/{name=sh/*}"
+		rules = []*annotations.HttpRule{{Selector: pipeSvc + "." + pipeMethod, Pattern: &annotations.HttpRule_Get{Get: tpl}}}
 	case 0:
 		tpl = "/v1/{name}/items/{id=**}"
 		rules = []*annotations.HttpRule{{Selector: pipeSvc + "." + pipeMethod, Pattern: &annotations.HttpRule_Get{Get: tpl}}}
@@ -211,6 +215,14 @@ func hC07RestOut() {
 	}
 	msg.fvals[0], msg.fset[0] = symbolicValue("name", outNameLen), true
 	verifAssume(len(msg.fvals[0]) > 0)
+	literalOK := true
+	if rule == 3 {
+		lit := nondetBytes("nameLiteral", 2)
+		leaf := nondetBytes("nameLeaf", 1)
+		verifAssume(lit[0] != '/' && lit[1] != '/' && leaf[0] != '/')
+		msg.fvals[0] = string(lit) + "/" + string(leaf)
+		literalOK = lit[0] == 's' && lit[1] == 'h'
+	}
 	msg.fvals[1], msg.fset[1] = symbolicValue("id", maxLen), true
 	if rule == 0 {
 		verifAssume(len(msg.fvals[1]) > 0)
@@ -233,6 +245,11 @@ func hC07RestOut() {
 	verifObsStr("backend-path", rec.path)
 	verifObsStr("backend-query", rec.rawQuery)
 	verifObsBytes("backend-body", rec.body)
+	if !literalOK {
+		verifReach("value-does-not-fit-the-template")
+		verifAssert(rec.calls == 0, "C07: a value that does not spell the template's literal segment is not sent on as a different path")
+		return
+	}
 	verifReach("rest-backend-called")
 	verifAssert(rec.calls == 1, "C07: the RPC is forwarded to the REST backend")
 	if rec.calls != 1 {
